@@ -136,6 +136,10 @@ class Executor:
   def lookup_global(s,n):
     g=s.mod.globals.get(n) if s.mod else None
     if g is not None: return g
+    fg=getattr(s.mod,'fn_globals',None)
+    if fg is not None:
+      c=getattr(s,'contract',None)
+      if c is not None and n in fg.get(c.qual,{}): return fg[c.qual][n]
     if s.mod is not None and n in s.mod.functions: return Fn(n)
     if s.spec and n in SPEC_FUNS: return Fn(n)
     if n in BUILTIN_FNS: return Fn(n)
@@ -372,20 +376,31 @@ class Executor:
         yield st,B((a.py==b.py)==(op is ast.Eq)); return
       if isinstance(a,Opq) and isinstance(b,Opq) and a.kind==b.kind:
         yield st,B((a.t==b.t) if op is ast.Eq else (a.t!=b.t)); return
-      if isinstance(a,Tup) and isinstance(b,Tup):
-        if len(a.items)!=len(b.items): yield st,B(op is ast.NotEq); return
-        acc=[]
-        for x,y in zip(a.items,b.items):
-          rs=list(s.compare(ast.Eq,x,y,st))
-          if len(rs)!=1 or isinstance(rs[0][1],Exc): raise Unsupported("tuple comparison with effects")
-          acc.append(list(s.truth(rs[0][1],st))[0][1])
-        t=z3.And(*acc) if acc else z3.BoolVal(True)
-        yield st,B(t if op is ast.Eq else z3.Not(t)); return
+      la=s.seq_items(a,st); lb=s.seq_items(b,st)
+      if la is not None and lb is not None and type(a)==type(b):
+        if len(la)!=len(lb): yield st,B(op is ast.NotEq); return
+        def go(i,st):
+          # element-wise ==, first difference decides (identity implies equality, as in CPython)
+          if i==len(la): yield st,B(op is ast.Eq); return
+          if isinstance(la[i],Ref) and isinstance(lb[i],Ref) and la[i].id==lb[i].id: yield from go(i+1,st); return
+          for st1,r in s.compare(ast.Eq,la[i],lb[i],st):
+            if isinstance(r,Exc): yield st1,r; continue
+            for st2,t in s.truth(r,st1):
+              if isinstance(t,Exc): yield st2,t; continue
+              for st3,side in s.branch(st2,t):
+                if side: yield from go(i+1,st3)
+                else: yield st3,B(op is ast.NotEq)
+        yield from go(0,st); return
       if type(a)!=type(b) and not isinstance(a,(Ref,Opq)) and not isinstance(b,(Ref,Opq)):
         yield st,B(op is ast.NotEq); return
     if op in (ast.Lt,ast.LtE,ast.Gt,ast.GtE) and (isinstance(a,NoneV) or isinstance(b,NoneV) or isinstance(a,Other) or isinstance(b,Other)):
       yield st,Exc('TypeError','ordering comparison'); return
     raise Unsupported(f"comparison {op.__name__} of {a!r} and {b!r}")
+
+  def seq_items(s,v,st):
+    if isinstance(v,Tup): return list(v.items)
+    if isinstance(v,Ref) and v.cls=='list' and (v.id,'items') in st.heap: return list(st.heap[(v.id,'items')])
+    return None
 
   def identical(s,a,b):
     """z3 Bool for `a is b` (None/bool/small-int identity is value identity here) or None if unknown."""
@@ -432,6 +447,15 @@ class Executor:
     return v
 
   def getattr(s,o,attr,st):
+    if isinstance(o,Ref) and attr=='__class__' and not o.cls.startswith(('list','set','dict','range','exc:')):
+      yield st,Cls(o.cls); return
+    if isinstance(o,Cls) and o.name in s.reg.gen_classes:
+      g=s.reg.gen_classes[o.name]
+      if attr in g['attrs']: yield st,g['attrs'][attr]; return
+      if attr in g['classmethods']: yield st,Fn(f'{o.name}.{attr}',o); return
+      if attr in g['methods']: yield st,Fn(f'{o.name}.{attr}'); return
+      if attr=='__name__': yield st,S(o.name); return
+      yield st,Exc('AttributeError',f'{o.name}.{attr}'); return
     if isinstance(o,SuperV):
       yield st,Fn(f'{o.parent}.{attr}',o.selfv); return
     if isinstance(o,ClsN):
@@ -554,6 +578,9 @@ class Executor:
       yield st,SPEC_FUNS[f.name](s,args,st); return
     if f.name in BUILTIN_FNS:
       yield from BUILTIN_FNS[f.name](s,f,args,kw,st); return
+    if f.self is not None and type(f.self).__name__=='DictSlot':
+      from .symcoll import SlotOps
+      st2,r=SlotOps.apply(s,f.self,f.name.split('.')[-1],args,st); yield st2,r; return
     if f.self is not None and isinstance(f.self,Ref):
       h=s.reg.coll_handler(f.self,st)
       if h is not None and h.has_method(f.name.split('.')[-1]):
@@ -568,7 +595,7 @@ class Executor:
     argv=list(args)
     if ctor is not None:
       selfv=st.alloc(ctor);
-    if selfv is not None and params and '.' in c.qual: argv=[selfv]+argv
+    if selfv is not None and params and '.' in c.qual: argv=[selfv]+argv      # bound method / classmethod (selfv is the Cls)
     env=c.bind(params,argv,kw,s)
     if isinstance(env,Exc): yield st,env; return
     tags={p:type_tag(v,st) for p,v in env.items()}
@@ -592,6 +619,7 @@ class Executor:
       # havoc the frame
       for loc in (cs.modifies if cs.modifies is not None else c.modifies):
         havoc_keys(resolve_locs(loc,env,st1.heap),st1,loc)
+      if c.call_effect is not None: c.call_effect(s,env,st1,cs)       # object-valued heap effects implied by the postcondition
       res=None
       rt=cs.returns if cs.returns is not None else c.returns
       if ctor is not None: res=selfv; rt='self'
@@ -1005,8 +1033,13 @@ def _inside_old(root,node):
 
 def resolve_locs(loc,env,heap):
   """heap keys named by a frame location: 'self._uint' ; 's._dsl.all_upblks' (a whole set / dict object)."""
+  import re
+  def step(cur,p):
+    m=re.match(r'^(\w+)((?:\[\d+\])*)$',p); cur=heap[(cur.id,m.group(1))]
+    for i in re.findall(r'\[(\d+)\]',m.group(2)): cur=heap[(cur.id,'items')][int(i)]
+    return cur
   parts=loc.split('.'); cur=env[parts[0]]
-  for p in parts[1:-1]: cur=heap[(cur.id,p)]
+  for p in parts[1:-1]: cur=step(cur,p)
   last=parts[-1]
   tgt=heap.get((cur.id,last))
   if isinstance(tgt,Ref) and tgt.cls=='set' and (tgt.id,'arr') in heap: return {(tgt.id,'arr')}
@@ -1194,9 +1227,18 @@ def _bi_hash(s,f,args,kw,st):
       return acc
     return None
   if isinstance(v,Ref) and v.cls=='list': yield st,Exc('TypeError','unhashable type: list'); return
-  if isinstance(v,Tup):
-    for x in v.items:
-      if isinstance(x,Ref) and x.cls=='list': yield st,Exc('TypeError','unhashable type: list'); return
+  def _has_ref(t): return any(isinstance(x,Ref) or (isinstance(x,Tup) and _has_ref(x)) for x in t.items)
+  if isinstance(v,Tup) and _has_ref(v):
+    # hash of a tuple hashes every element (left to right): lists are unhashable, objects go through their __hash__
+    def go(i,st,acc):
+      if i==len(v.items):
+        hf=z3.Function('hash_pair',z3.IntSort(),z3.IntSort(),z3.IntSort()); a=z3.IntVal(len(acc))
+        for x in acc: a=hf(a,x)
+        yield st,I(z3.Function('hash_int',z3.IntSort(),z3.IntSort())(a)); return
+      for st1,r in _bi_hash(s,f,[v.items[i]],kw,st):
+        if isinstance(r,Exc): yield st1,r
+        else: yield from go(i+1,st1,acc+[as_int(r)])
+    yield from go(0,st,[]); return
   r=h(v)
   if r is None:
     if isinstance(v,Ref) and s.reg.find_method(v.cls,'__hash__') is not None:
